@@ -749,7 +749,11 @@ func (m *model) compareQueue(what string, want map[int64]*[nActors]*big.Int, got
 			} else if g.Sign() == 0 {
 				fact = "missing"
 			}
-			m.violate(fmt.Sprintf("C12|pending-record|op=%s|queue=%s|who=delegator|fact=%s|world=%s", name, what, fact, cls),
+			trigger := name
+			if hh <= h {
+				trigger = "begin-block" // clearing a matured entry is the block hook's job whatever the block carried
+			}
+			m.violate(fmt.Sprintf("C12|pending-record|op=%s|queue=%s|who=delegator|fact=%s|world=%s", trigger, what, fact, cls),
 				fmt.Sprintf("height %d: pending %s record of %s at height %d is %v, owed %v", h, what, actorNames[i], hh, g, w))
 			if hh > h && want[hh] != nil {
 				// follow the record so that one root cause is reported once
